@@ -2,7 +2,7 @@
 """Regenerates /verif/MANIFEST.json from the table below (single source of truth)."""
 import json
 
-NOTE = ("Trusted: clang 14 front end + mem2reg, bin/irfacts, sa/contract.py tables, the assumption that distinct "
+NOTE = ("Trusted: clang 14 front end, the LLVM-14 utilities bin/irspec calls on the -O0 IR (always-inliner for four kinds of static helper, mem2reg, instruction simplification, jump threading, complete unrolling of constant-trip loops), bin/irfacts, sa/contract.py tables, the assumption that distinct "
         "caller-owned objects do not overlap. IR-level, path facts from branch conditions only; not a machine-checked proof.")
 
 NA = {
@@ -15,23 +15,23 @@ PENDING = "check not built yet in this session (work in progress; see DESIGN.md 
 
 CHECKS = {
     "C03": dict(
-        technique="semantic classification of schedule walkers (cursor start/step provenance) + vtable-resolved dispatch check + may-write frame of the Mantis mode switch",
+        technique="semantic classification of schedule walkers + vtable-resolved dispatch check + bit-routing tables of permutation helper pairs + GF(2) affine abstract interpretation of one round of every SKINNY encrypt/decrypt pair (decrypt's linear layer composed with encrypt's must be the identity, key and constant terms included) + may-write frame of the Mantis mode switch",
         text="Decides structural necessary conditions of 'decrypt inverts encrypt', not the algebra: every *_encrypt entry point and vtable slot 0 reaches only functions that walk the key schedule forward from entry 0, every *_decrypt entry point and slot 1 only functions that walk it backward from rounds-1 (including the scalar tails the 128-block test never executes); each walk starts at the right end and visits exactly `rounds` entries of the same object's rounds field; by bit-granular copy propagation (bits are moved, never combined) every helper pair X / X_inverse (Mantis tweak permutation h and cell permutation P, scalar and vector copies) composes to the identity routing; every site that XORs the reflection constant into k1 applies the same eight constant bytes; mantis_swap_modes writes exactly k0, k0prime and k1 (tweak and rounds preserved) and the parallel wrapper applies it to the object's own context. NOT decided: that the inverse S-boxes, inverse rounds and the alpha/k0' algebra are inverses (value facts).",
         note=NOTE),
     "C04": dict(
-        technique="typestate/dominance check of the shadow-tweak protocol + byte-range definite-initialisation of the stored tweak + must-store summaries + call-argument constants/identity along enumerated paths",
+        technique="byte-range XOR algebra over every path of set_tweak (what the schedule passes are handed must sum to old tweak ^ zero-padded new tweak) + linearity check of the pass routine under the call's constants + GF(2) affine comparison of the pass with the TK1 setter + byte-range definite-initialisation of the stored tweak + must-store summaries + call-argument identity along enumerated paths",
         text="Decides necessary structural conditions of history independence, not the algebra: in both set_tweak functions the old tweak is saved (all bytes) before the field is overwritten, the field is then fully rewritten as argument bytes followed by zeros (NULL never dereferenced, zero-filled), the xor-out pass takes the saved copy and the xor-in pass the rewritten field, both through the same routine on the same schedule, which steps the tweakey permutation once per round under the rounds bound like the TK1 setter; a fresh tweaked schedule zero-fills the stored tweak and passes that field as TK1 with domain flag 1 (untweaked: key, flag 0); the CTR tweak entry points of every back end hand the caller's arguments unchanged to the core functions on their own schedule and invalidate the buffered keystream; tweaked round counts are 48/56 (36/40). NOT decided: linearity of the TK1 schedule (that xor-out/xor-in equals a fresh schedule).",
         note=NOTE + " Recognised protocol shape: copy old; rewrite field; xor(old copy); xor(field); another shape is reported as not modelled (exit 2), never as a violation."),
     "C05": dict(
-        technique="must-store summaries for the invalidation protocol + path-by-path abstract evaluation (linear forms over SSA atoms) of the seven CTR encrypt loops + call-site constant sets for lane advance/stagger + definite-initialisation of the counter load",
+        technique="must-store summaries for the invalidation protocol + path-sensitive abstract interpretation of every CTR encrypt function with ghost state (first unused keystream byte, data bytes produced; linear forms, path facts, first iteration + generic iteration under an inferred invariant) + call-site constant sets for lane advance/stagger + definite-initialisation of the counter load",
         text="Decides the buffering protocol that makes the output independent of how the data is cut into calls, for all 7 back ends, with BATCH taken from sizeof(ecounter): every setter and init leaves the buffer exhausted on all success paths; each refill encrypts counter->ecounter under the context's own schedule, guarded by offset >= BATCH, and advances every lane exactly once by BATCH/BLOCK; set_counter defines all counter bytes, places the caller's bytes at the end of the block (left zero padding) and staggers lane i by i; on every path through the encrypt loop the keystream bytes [a,a+n) used are followed by offset := a+n with n bounded by the bytes left, a whole batch is only consumed under size >= BATCH, out/in/size cursors move by exactly the bytes consumed, out and in share the same offset; increment helpers walk all block bytes with a fixed trip count. NOT decided: that the buffered bytes equal E(c+i) (value fact).",
         note=NOTE + " Member-extent assumption: a helper handed the address of a struct member writes only inside that member (its own accesses are bounded by C09)."),
     "C06": dict(
-        technique="sibling comparison of canonical effect/guard summaries across back ends (fields by name) + lane colour analysis of the CTR batch encryptors on -O3 IR + batch-discard reconciliation rule",
+        technique="sibling comparison of canonical effect/guard summaries across back ends + GF(2) affine abstract interpretation of the round loop of every block function (scalar, parallel vector, CTR batch): same linear layer block by block + bit-routing tables of vector permutation helpers + lane colour analysis of the CTR batch encryptors on -O3 IR + batch-discard reconciliation rule",
         text="Value equality of the independently written vector round functions is not decided. Decided for every vtable slot of every cipher: the vector back ends' success-path guards, return constants, reject-before-write behaviour and written context fields agree with their generic sibling (a guard present in one and missing in another is reported at the deviant); every CTR batch encryptor writes keystream block b from counter lane b only; vector siblings of one parallel table read the same key-schedule fields; scalar and vector copies of each permutation helper realise the same bit-routing table. One genuine divergence is reported as known findings (D6, 11 functions): in the 4-/8-lane back ends set_key / set_tweaked_key / set_tweak discard the pre-computed batch without rewinding the lane counters, so after a mid-stream key or tweak change the next block is E(c+L) where the generic back end gives E(c+1) (replay findings/D6_ctr_rekey.c).",
         note=NOTE + " No run-time probe override hook is needed: all back ends are analysed from source regardless of the host CPU."),
     "C07": dict(
-        technique="path-by-path evaluation of the parallel loops (cursor deltas as linear forms) + byte/lane-granular may-dependency (colour) analysis of the vector ECB functions on -O3 IR + extent/parallel_size agreement",
+        technique="consumed-bytes ghost model of the parallel data loops (every loop-carried value = start +/- bytes consumed; buffer arguments = parameter + consumed; guard size - consumed >= amount) + byte/lane-granular may-dependency analysis of the vector ECB functions on -O3 IR + GF(2) affine linear layer and input/output layout agreement with the scalar function + extent/parallel_size agreement",
         text="Decides structural necessary conditions of 'parallel == block by block', not the values: in every loop of the six public parallel functions all data cursors (output, input, Mantis tweak) are advanced in that loop by exactly what size decreases by, which is what the callee consumes (ecb->parallel_size for the vtable slot, the block size for the scalar tail), the callee receives the current cursors and the loop guard keeps that many bytes available; parallel_size equals the bytes the selected slot target writes; in the -O3 IR of each of the 7 vector ECB functions every output byte of block b may depend only on input (and tweak) block b and the whole batch is written; encrypt/decrypt dispatch only to forward/backward walkers; non-multiples of the block are rejected and the empty call succeeds without touching memory. NOT decided: equality of the vector and scalar round functions.",
         note=NOTE + " Lane analysis is a may-dependency over-approximation on clang's -O3 IR."),
     "C08": dict(
@@ -51,7 +51,7 @@ CHECKS = {
         text="For every function of the library on every path: no byte of a stack object is read before it is written (unions as byte ranges, memset/memcpy with symbolic adjacent lengths, loop-filled arrays, reads and writes by callees through summaries); no scalar local is loaded before a store; all allocations are calloc; every init success path must-writes every handle field; every key-schedule field that any function reads is must-written (arrays: written under the shared rounds bound) by every keying function; schedule loops in writers and readers are bounded by the rounds field of the same object; init reads nothing from the caller's object. A value that depends on leftover memory compares equal to itself in a test; here the dependence itself is excluded.",
         note=NOTE + " 'Bit-identical under another optimisation level' is claimed only in the sense that uninitialised reads are excluded."),
     "C12": dict(
-        technique="compile witnesses over the configuration matrix (clang + gcc, override hook) + cross-configuration comparison of canonical effect/guard summaries (exact byte sets read/written per object, element-inner offsets, induction-variable ranges)",
+        technique="compile witnesses over the configuration matrix (clang + gcc, override hook) + cross-configuration comparison of canonical effect/guard summaries, bit-routing tables of permutation helpers, and GF(2) affine maps of the round functions and of one round of every tweakey schedule loop",
         text="Equality of values across the alternative implementations is NOT decided. Decided: every combination of the five platform switches compiles for all 18 units with clang and gcc (quick: shipped + a pairwise covering array; thorough: all 32); for every function that does not dispatch through a back-end table, its caller-visible summary - success-path guards, return constants, and per object the exact bytes written and the bytes read that it does not write itself - is identical to the shipped configuration's in every configuration where it exists, so a word-size-, alignment- or endian-specific branch that forgets part of an update, loops over the wrong extent, validates differently or calls a different existing helper is reported; every pure bit-permutation helper has the same routing table in every configuration; and every other property's rules run in each of those configurations (thorough: all 32).",
         note=NOTE + " Uses the guarded hook in src/skinny-internal.h (RWEATHER_SKINNY_C_VERIF)."),
     "C13": dict(
@@ -81,6 +81,15 @@ CHECKS = {
 }
 
 
+def title_of(pid):
+    import importlib, sys
+    sys.path.insert(0, '/verif')
+    try:
+        return getattr(importlib.import_module('sa.rules.' + pid.lower()), 'TITLE', None)
+    except Exception:
+        return None
+
+
 def main():
     props = [json.loads(l) for l in open('/verif/properties.jsonl')]
     checks = []
@@ -94,7 +103,7 @@ def main():
             "replay_cmd_template": "python3 -m sa.replay {path}",
             "engine": "sa (irfacts + dataflow over LLVM IR)",
             "technique": c["technique"],
-            "level_claimed": {"category": "other", "text": c["text"], "design_ref": "DESIGN.md §4 " + pid},
+            "level_claimed": {"category": "other", "text": title_of(pid) or c["text"], "design_ref": "DESIGN.md §4 " + pid},
             "level_note": c["note"],
         })
     na = [{"property_id": p["id"], "reason": NA.get(p["id"], PENDING)} for p in props if p["id"] not in CHECKS]
